@@ -39,12 +39,12 @@ def main():
         meta["ran"].append("go build ./... && go test -vet=off -count=1 ./...  (with change, without demo): rc=%d" % rc)
         shutil.copy(os.path.join(out, "zz_demo_test.go"), os.path.join(scratch, demo_rel))
         pkgdir = os.path.dirname(demo_rel) or "."
-        rc, o = sh("go test -vet=off -count=1 -run 'Demo' ./%s" % pkgdir, cwd=scratch)
+        rc, o = sh("go test " + os.environ.get('VERIF_DEMO_FLAGS', '') + " -vet=off -count=1 -run 'Demo' ./%s" % pkgdir, cwd=scratch)
         meta["demo_fails_with_change"] = rc != 0
         meta["ran"].append("go test -run Demo ./%s (with change): rc=%d" % (pkgdir, rc))
         rc, o = sh("git apply -R %s/patch.diff" % out, cwd=scratch)
         assert rc == 0, o
-        rc, o = sh("go test -vet=off -count=1 -run 'Demo' ./%s" % pkgdir, cwd=scratch)
+        rc, o = sh("go test " + os.environ.get('VERIF_DEMO_FLAGS', '') + " -vet=off -count=1 -run 'Demo' ./%s" % pkgdir, cwd=scratch)
         meta["demo_passes_without_change"] = rc == 0
         meta["ran"].append("go test -run Demo ./%s (without change): rc=%d" % (pkgdir, rc))
     finally:
